@@ -735,6 +735,62 @@ def r16f(rep, F):
                 'norm is fresh at every return' if not cl.bad else cl.bad[0][0], cl.bad[0][1] if cl.bad else None)
 
 
+class RejectedStep(paths.Client):
+    """auto = True once the traversal was abandoned through a rejection (the loop flag was cleared: done = false; break;)"""
+    track = 'vars'
+
+    def __init__(self, fn, flagkey):
+        self.flagkey = flagkey
+        self.bad = []
+        self.rets = 0
+
+    def init(self, fn):
+        return False
+
+    def on_node(self, fn, node, auto, ctx):
+        if node['k'] == 'BinaryOperator' and node.get('op') == '=' and key(fn, node['ch'][0]) == self.flagkey:
+            r = fn.strip(node['ch'][1])
+            return bool(r is not None and r['k'] == 'CXXBoolLiteralExpr' and r.get('v') in (False, 'false', 0))
+        if node['k'] == 'ReturnStmt' and node['ch']:
+            self.rets += 1
+            if auto:
+                v = ctx.eval(node['ch'][0])
+                if v is not False:
+                    self.bad.append(('after a step was rejected (the loop flag was cleared and the loop left) the function can still return true: '
+                                     'the verdict does not depend on the flag any more', ctx.path()))
+        return auto
+
+
+def r16g(rep, F):
+    rep.rule('R16g', 'a rejected step ends the traversal as a failure: AtlasStateSpace::discreteGeodesic updates its working state BEFORE it vets '
+                     'the step (validity, distance limits, chart limit, singularity) and leaves the loop through "done = false; break;" when the '
+                     'step is rejected; on every such path the returned verdict is false (path-sensitive evaluation of the returned expression '
+                     'with the flag known false).  A verdict that only measures the distance from the working state to the target reports '
+                     'success for a rejected step that happens to lie within one step size of the target, while the stored geodesic ends at the '
+                     'previous accepted state')
+    fn = F.one(B + 'AtlasStateSpace::discreteGeodesic')
+    dos = [x for x in fn.walk() if x['k'] == 'DoStmt']
+    if len(dos) != 1 or not dos[0].get('cond'):
+        raise AnalysisBroken('R16g: traversal loop of AtlasStateSpace::discreteGeodesic not found')
+    flag = None
+    for x in fn.walk(dos[0]['cond']):
+        if x['k'] == 'DeclRefExpr' and x.get('dk') == 'Local':
+            flag = '%s#%d' % (x['name'], x['did'])
+    if flag is None:
+        raise AnalysisBroken('R16g: loop flag not found')
+    rej = [x for x in fn.walk(dos[0]['body']) if x['k'] == 'BinaryOperator' and x.get('op') == '=' and key(fn, x['ch'][0]) == flag and
+           (fn.strip(x['ch'][1]) or {}).get('v') in (False, 'false', 0)]
+    if len(rej) < 2:
+        raise AnalysisBroken('R16g: fewer rejection exits than confirmed by reading (%d)' % len(rej))
+    cl = RejectedStep(fn, flag)
+    paths.run_function(fn, cl, F)
+    if not cl.rets:
+        raise AnalysisBroken('R16g: no return reached')
+    rep.add('R16g', fn.name, 'rejected-step-fails', not cl.bad, fn.where(rej[0]),
+            'on every path through one of the %d rejection exits the returned verdict is false' % len(rej) if not cl.bad else cl.bad[0][0],
+            cl.bad[0][1] if cl.bad else None)
+
+
 def run(rep):
     F = facts.load_units(UNITS)
     rep.units.update(UNITS)
@@ -745,6 +801,7 @@ def run(rep):
     r16d(rep, F)
     r16e(rep, F)
     r16f(rep, F)
+    r16g(rep, F)
     rep.undecided('R16a', B + 'TangentBundleStateSpace::discreteGeodesic', 'lazy', 'intermediate states of the lazy variant are off the manifold by '
                   'design; what it returns through interpolate is covered by R16c')
     rep.undecided('R16x', B + 'Constraint::project', 'convergence', 'that Newton iteration converges, and that a state within tolerance of f = 0 '
